@@ -18,8 +18,26 @@ import (
 func PathOf(v ssa.Value) string {
 	switch x := v.(type) {
 	case *ssa.Parameter:
+		// canonical names, independent of what the source calls them: the
+		// receiver is "recv", other parameters are "arg<i>"
+		if fn := x.Parent(); fn != nil {
+			for i, p := range fn.Params {
+				if p == x {
+					if fn.Signature.Recv() != nil {
+						if i == 0 {
+							return "recv"
+						}
+						return fmt.Sprintf("arg%d", i-1)
+					}
+					return fmt.Sprintf("arg%d", i)
+				}
+			}
+		}
 		return x.Name()
 	case *ssa.FreeVar:
+		if b := ResolveFreeVar(x); b != nil {
+			return PathOf(b)
+		}
 		return x.Name()
 	case *ssa.FieldAddr:
 		f := FieldOf(x)
@@ -41,9 +59,29 @@ func PathOf(v ssa.Value) string {
 			return PathOf(x.X)
 		}
 	case *ssa.Alloc:
-		// a spilled parameter/local: name by its comment (variable name)
+		// a parameter spilled because a closure captures it: name it after the parameter
+		var src ssa.Value
+		n := 0
+		for _, use := range CellUses(x) {
+			if st, ok := use.Instr.(*ssa.Store); ok {
+				addr := st.Addr
+				if fv, ok := addr.(*ssa.FreeVar); ok {
+					addr = ResolveFreeVar(fv)
+				}
+				if addr == ssa.Value(x) {
+					n++
+					src = st.Val
+				}
+			}
+		}
+		if n == 1 {
+			if prm, ok := src.(*ssa.Parameter); ok {
+				return PathOf(prm)
+			}
+		}
+		// a local: name by its declared name plus identity (two locals may share a name)
 		if x.Comment != "" {
-			return x.Comment
+			return fmt.Sprintf("%s@%p", x.Comment, x)
 		}
 	case *ssa.ChangeType:
 		return PathOf(x.X)
